@@ -3,6 +3,8 @@
 from __future__ import annotations
 
 import ast
+
+from sa import te
 import re
 
 from sa.core import Ctx
@@ -67,31 +69,41 @@ def run(ctx: Ctx):
                 if not texty:
                     # build_expression(tree) etc. are not text evaluators; sympify of a SCIENTIFIC_NUMBER token is checked in C01
                     continue
-                key = f.key(f"{d}({norm(texty[0])})")
+                shape = "first word of the text" if ".split(" in norm(texty[0]) else "the text"
+                key = f"{f.rel}::{d}(<{shape}>)"
                 ctx.fail(
                     "R17.a",
                     key,
                     f"{f.qualname} hands free text `{norm(texty[0])}` to `{d}(...)`, which evaluates arithmetic in it (pint parses and computes the expression): an annotation such as `# 9**9**9` makes loading hang, and text can change what is loaded",
                     f.where(c),
                 )
-                # the handler around it must be broad
-                chain = common.cond_chain(f.node, None)
-    gu = sm.func("transformer.py", "get_unit_and_comment_from_assignment")
-    trys = [n for n in ast.walk(gu.node) if isinstance(n, ast.Try)]
-    ok = False
-    if trys:
-        hs = trys[0].handlers
-        ok = len(hs) >= 1 and any(h.type is None or norm(h.type) in ("Exception", "BaseException") for h in hs) and any(isinstance(s, ast.Return) and "Comment(" in norm(s) for h in hs for s in h.body)
-        ok = ok and any(isinstance(c, ast.Call) and (dotted(c.func) or "").endswith("ureg") for s in trys[0].body for c in ast.walk(s))
-    ctx.check(ok, "R17.a", gu.key("any-failure-is-a-comment"), "whatever pint raises for a trailing text, the text is kept as a comment", "get_unit_and_comment_from_assignment: the unit probe is not wrapped in `except Exception` returning the text as a comment; ordinary comment texts make pint raise other exceptions (TokenError, ZeroDivisionError, AssertionError, DefinitionSyntaxError ...) and abort the load", gu.where(trys[0]) if trys else gu.where())
-    pre = [c for c in walk_no_nested(gu.node) if isinstance(c, ast.Call) and (dotted(c.func) or "").split(".")[-1] not in ("isinstance", "len", "Comment", "ureg") and any(isinstance(x, ast.Attribute) and x.attr == "text" for a in list(c.args) for x in ast.walk(a))]
-    ctx.check(not pre, "R17.a", gu.key("no-other-consumer"), "comment text is only probed as a unit and stored", f"get_unit_and_comment_from_assignment passes comment text to {[norm(c.func) for c in pre]}: every extra consumer of free text is a new way for a comment to change or block loading", gu.where(pre[0]) if pre else gu.where())
-    uf = sm.func("atoms.py", "unit_from_string")
-    trys = [n for n in ast.walk(uf.node) if isinstance(n, ast.Try)]
-    outer = trys[0] if trys else None
-    ok = outer is not None and any(h.type is not None and norm(h.type) in ("Exception", "BaseException") for h in outer.handlers)
-    inner_ok = all(any(h.type is None or norm(h.type) in ("Exception", "BaseException") for h in t.handlers) for t in trys[1:])
-    ctx.check(ok and inner_ok, "R17.a", uf.key("any-failure-is-no-unit"), "whatever pint raises for a unit string, the atom just has no unit", "unit_from_string does not catch every exception from pint (outer and fallback attempt): an odd unit annotation aborts the load", uf.where())
+                # whatever the evaluator raises for that text must be absorbed where it is called
+                parents = {ch: pa for pa in ast.walk(f.node) for ch in ast.iter_child_nodes(pa)}
+                node, guard = c, None
+                while node in parents:
+                    pa = parents[node]
+                    if isinstance(pa, ast.Try) and any(node is s_ or node in list(ast.walk(s_)) for s_ in pa.body):
+                        guard = pa
+                        break
+                    node = pa
+                okg = guard is not None and any(h.type is None or norm(h.type) in ("Exception", "BaseException") for h in guard.handlers)
+                if okg:
+                    for h in guard.handlers:
+                        if any(p_.exit == "raise" for p_ in te.enumerate_paths(h.body)):
+                            okg = False
+                ctx.check(
+                    okg,
+                    "R17.a",
+                    f"{f.rel}::{d}(<{shape}>)::any-failure-absorbed",
+                    "whatever pint raises for the text is absorbed (the text is then just not a unit)",
+                    f"{f.qualname}: the probe `{norm(c)[:60]}` is not inside a try whose handlers catch Exception without re-raising; ordinary comment / unit texts make pint raise all sorts of exceptions (TokenError, ZeroDivisionError, AssertionError, TypeError, DefinitionSyntaxError ...) and would abort the load",
+                    f.where(guard) if guard is not None else f.where(c),
+                )
+    for short in ("transformer.py",):
+        for f in sm.funcs_in(short):
+            pre = [c for c in walk_no_nested(f.node) if isinstance(c, ast.Call) and (dotted(c.func) or "").split(".")[-1] not in ("isinstance", "len", "Comment", "ureg", "str") and not (dotted(c.func) or "").split(".")[-1].startswith("_") and any(isinstance(x, ast.Attribute) and x.attr == "text" and "Comment" not in norm(c.func) for a in list(c.args) for x in ast.walk(a))]
+            if f.qualname == "get_unit_and_comment_from_assignment" or pre:
+                ctx.check(not pre, "R17.a", f.key("no-other-consumer"), "comment text is only probed as a unit and stored", f"{f.qualname} passes comment text to {[norm(c.func) for c in pre]}: every extra consumer of free text is a new way for a comment to change or block loading", f.where(pre[0]) if pre else f.where())
     # regular expressions in the modules that see free text
     n_rx = 0
     for short in scope + ["codegen/ode.py"]:
@@ -135,11 +147,11 @@ def run(ctx: Ctx):
         body = txt[txt.rfind('")"') + 3:].strip()
         okb = all(x in body for x in ("assignment", "comment", "NEWLINE")) and body.endswith(")+")
         ctx.check(okb, "R17.b", f"src/gotranx/ode.lark::expressions::{txt.split()[0]}::block-items", f"block items: {body}", f"inside a `{txt.split()[0].strip(chr(34))}(...)` block only `{body}` is accepted: a comment line or a blank line between two assignments ends the block and the remaining assignments silently move to the unnamed component (or the model no longer loads)", "src/gotranx/ode.lark")
-    te = sm.func("transformer.py", "TreeToODE.expressions")
-    ok = any(isinstance(n, ast.If) and "isinstance(si, atoms.Comment)" in norm(n.test) for n in ast.walk(te.node))
+    tex = sm.func("transformer.py", "TreeToODE.expressions")
+    ok = any(isinstance(n, ast.If) and "isinstance(si, atoms.Comment)" in norm(n.test) for n in ast.walk(tex.node))
     to = sm.func("transformer.py", "TreeToODE.ode")
     ok2 = any(isinstance(n, ast.If) and norm(n.test) == "isinstance(atom, atoms.Comment)" and any(isinstance(s, ast.Continue) for s in n.body) for n in ast.walk(to.node))
-    ctx.check(ok and ok2, "R17.b", te.key("comments-in-block"), "comments inside a block are passed on, not treated as atoms", "the transformer does not handle Comment items inside an expressions block (they would be treated as atoms)", te.where())
+    ctx.check(ok and ok2, "R17.b", tex.key("comments-in-block"), "comments inside a block are passed on, not treated as atoms", "the transformer does not handle Comment items inside an expressions block (they would be treated as atoms)", tex.where())
     asg = G.shape("assignment")
     ctx.check(asg.replace(" ", "") == '?assignment:VARIABLE"="expression[comment][NEWLINE]', "R17.b", "src/gotranx/ode.lark::assignment", asg, f"assignment rule is `{asg}`", "src/gotranx/ode.lark")
 
